@@ -1824,6 +1824,10 @@ class _AdaptCase:
                         alts = [b for b in (a.body, a.orelse) if not (isinstance(b, ast.Constant) and b.value in (0, None))]
                         if len(alts) == 1:
                             src = alts[0]
+                            dflt = a.orelse if alts[0] is a.body else a.body
+                            if isinstance(dflt, ast.Constant) and dflt.value is None:
+                                why.append(f"an entry without index is resolved (and recorded) with index `None` (`{norm(a)}`), but update_var and "
+                                           f"the edge map address the first edge by the integer 0: the record points at an edge key that does not exist")
                     el = elem_of_expr(ctx, V, src)
                     if el is None and not isinstance(a, (ast.Name, ast.Constant)):
                         raise AnalysisError(f"{rid}: cannot tell where get_edge's `{role}` argument `{norm(a)}` comes from (unrecognised form)")
@@ -2535,6 +2539,174 @@ def _field_origins(eff, g: FunctionInfo, path, rid, depth=0):
     return cur
 
 
+# ---- ownership records that license an in-place write (copy once / copy-on-write designs) ------------------------------------
+
+def _membership_guards(f, node):
+    """[(container expr, tested expr, polarity)] of `x in R` / `id(x) in R` / `x not in R` tests that hold where `node` executes:
+    enclosing if statements and preceding sibling `if <test>: return / continue` statements."""
+    out = []
+
+    def tests(t, pol):
+        if isinstance(t, ast.UnaryOp) and isinstance(t.op, ast.Not):
+            tests(t.operand, not pol)
+        elif isinstance(t, ast.BoolOp) and ((isinstance(t.op, ast.And) and pol) or (isinstance(t.op, ast.Or) and not pol)):
+            for v in t.values:
+                tests(v, pol)
+        elif isinstance(t, ast.Compare) and len(t.ops) == 1 and isinstance(t.ops[0], (ast.In, ast.NotIn)):
+            out.append((t.comparators[0], t.left, pol == isinstance(t.ops[0], ast.In)))
+    cur = node
+    for a in ancestors(node):
+        if isinstance(a, _FUNCS):
+            break
+        for fld in ("body", "orelse"):
+            b = getattr(a, fld, None)
+            if isinstance(b, list) and any(x is cur for x in b):
+                i = [x is cur for x in b].index(True)
+                for prev in b[:i]:
+                    if isinstance(prev, ast.If) and not prev.orelse and prev.body and isinstance(prev.body[-1], (ast.Return, ast.Continue, ast.Raise, ast.Break)):
+                        tests(prev.test, False)
+                if isinstance(a, ast.If):
+                    tests(a.test, fld == "body")
+        if isinstance(a, ast.stmt):
+            cur = a
+    return out
+
+
+def _local_registry_license(ctx, rid, f, an, call, recv):
+    """The receiver is written in place only where `id(recv) in R` / `recv in R` holds for a registry R that this very call created
+    empty and fills with nothing but deep copies it made itself: the object is one of those copies.  'ok' text, or None."""
+    from engine.effects import DEEP_COPIERS
+    rd = ctx.rd(f)
+    for cont, tested, pol in _membership_guards(f, call):
+        if not pol or not isinstance(cont, ast.Name):
+            continue
+        t = tested.args[0] if isinstance(tested, ast.Call) and isinstance(tested.func, ast.Name) and tested.func.id == "id" and len(tested.args) == 1 else tested
+        if ast.dump(t) != ast.dump(recv):
+            continue
+        defs = [d for d in rd.defs_reaching(cont)]
+        vals = [None if isinstance(d, ast.arguments) else assigned_value(d, cont.id) for d in defs]
+        if not defs or not all(v is not None and _is_empty_literal(v) for v in vals):
+            raise AnalysisError(f"{rid}: `{norm(call)}` is licensed by membership in `{cont.id}`, which is not a registry created empty by this call")
+        ins = []
+        for n in walk_shallow(f.node):
+            if isinstance(n, ast.Assign) and len(n.targets) == 1 and isinstance(n.targets[0], ast.Subscript) and isinstance(n.targets[0].value, ast.Name) \
+                    and n.targets[0].value.id == cont.id:
+                ins.append(n.value)
+            elif isinstance(n, ast.Call) and isinstance(n.func, ast.Attribute) and isinstance(n.func.value, ast.Name) and n.func.value.id == cont.id \
+                    and n.func.attr in ("add", "append", "setdefault", "update", "extend", "insert"):
+                ins.append(n.args[-1] if n.args else None)
+        if not ins:
+            raise AnalysisError(f"{rid}: nothing is ever entered into the registry `{cont.id}` that licenses `{norm(call)}`")
+        for v in ins:
+            e = v.args[0] if isinstance(v, ast.Call) and isinstance(v.func, ast.Name) and v.func.id == "id" and v.args else v
+            src = e
+            for _ in range(5):
+                if isinstance(src, ast.Name):
+                    ds = rd.defs_reaching(src)
+                    vs = [assigned_value(d, src.id) for d in ds if not isinstance(d, ast.arguments)]
+                    if len(ds) == 1 and len(vs) == 1 and vs[0] is not None:
+                        src = vs[0]
+                        continue
+                break
+            if not (isinstance(src, ast.Call) and call_name(src) in DEEP_COPIERS):
+                raise AnalysisError(f"{rid}: the registry `{cont.id}` that licenses `{norm(call)}` also receives `{norm(v) if v is not None else '?'}`, "
+                                    f"which is not a deep copy made by this call")
+        return f"written in place only where `{norm(tested)} in {cont.id}` holds, and `{cont.id}` is created empty by this call and only ever receives deep copies it made itself"
+    return None
+
+
+def ownership_discipline(ctx, rid):
+    """Copy-on-write with a persistent ownership record: CircuitTemplate.update_var obtains the template it writes into from an
+    accessor that returns the object found on the circuit when its key is in `self.<R>`, and otherwise stores a deep copy and
+    enters the key into `self.<R>`.  Returns None when update_var has no such accessor, else a dict with the record attribute, the
+    holding attributes, and the list of places where the held objects are handed to another holder without the record being
+    dropped: [(function, node, text)]."""
+    from engine.effects import analyse, DEEP_COPIERS
+    from engine.inline import inlined
+    eff = ctx.effects
+    f0 = ctx.repo.get_func(CIRC, "CircuitTemplate.update_var")
+    k = f0.cls
+    acc = None
+    for m in k.methods.values():
+        if m.self_name is None:
+            continue
+        rec = None
+        for n in walk_shallow(m.node):
+            if isinstance(n, ast.If):
+                for t in ast.walk(n.test):
+                    if isinstance(t, ast.Compare) and len(t.ops) == 1 and isinstance(t.ops[0], (ast.In, ast.NotIn)) and isinstance(t.comparators[0], ast.Attribute) \
+                            and isinstance(t.comparators[0].value, ast.Name) and t.comparators[0].value.id == m.self_name:
+                        rec = t.comparators[0].attr
+        if rec is None:
+            continue
+        adds = [n for n in walk_shallow(m.node) if isinstance(n, ast.Call) and isinstance(n.func, ast.Attribute) and n.func.attr == "add"
+                and isinstance(n.func.value, ast.Attribute) and n.func.value.attr == rec]
+        copies = [n for n in walk_shallow(m.node) if isinstance(n, ast.Call) and call_name(n) in DEEP_COPIERS]
+        rets = [n for n in walk_shallow(m.node) if isinstance(n, ast.Return) and n.value is not None]
+        if adds and copies and len(rets) >= 2 and any(c for c, _ in [(x, 0) for x in ctx.cg.call_sites_of(m)] if c[0] == f0):
+            acc = (m, rec)
+            break
+    if acc is None:
+        return None
+    m, rec = acc
+    an = analyse(eff, m, None)
+    holders = set()
+    for r in walk_shallow(m.node):
+        if isinstance(r, ast.Return) and r.value is not None:
+            for o in an.origins(r.value):
+                if o[0] == "P" and o[1] == m.self_name and o[2]:
+                    holders.add(o[2][0][1:])
+    if not holders:
+        raise AnalysisError(f"{rid}: cannot tell which attributes of the circuit hold the templates that `{rec}` records as owned")
+    leaks = []
+    fam = {k} | set(ctx.repo.subclasses(k))
+    for kk in sorted(fam, key=lambda x: x.qual):
+        for g in kk.methods.values():
+            if g.self_name is None:
+                continue
+            ctor_calls = [c for c in walk_shallow(g.node) if isinstance(c, ast.Call) and (
+                (isinstance(c.func, ast.Attribute) and c.func.attr == "__class__") or
+                (isinstance(c.func, ast.Call) and isinstance(c.func.func, ast.Name) and c.func.func.id == "type") or
+                (isinstance(c.func, ast.Name) and hasattr(ctx.repo.resolve_name(g.module, c.func.id), "mro")
+                 and ctx.repo.resolve_name(g.module, c.func.id) in fam))]
+            if not ctor_calls:
+                continue
+            ag = analyse(eff, g, None)
+            cfg = ctx.cfg(g)
+            for c in ctor_calls:
+                handed = []
+                for a in list(c.args) + [kw.value for kw in c.keywords]:
+                    for o in ag.origins(a.value if isinstance(a, ast.Starred) else a):
+                        objs = [o] + [x if x[0] != "K" else x[2] for x in (o[1] if o[0] == "L" else ())]
+                        for x in objs:
+                            while x[0] == "C":
+                                x = x[1]
+                            if x[0] == "P" and x[1] == g.self_name and x[2] and x[2][0][1:] in holders:
+                                handed.append(norm(a, 40))
+                if not handed:
+                    continue
+                st = stmt_of(cfg, c)
+
+                def drops(n):
+                    if not isinstance(n, ast.stmt) or isinstance(n, (ast.If, ast.For, ast.While)):
+                        return False
+                    for x in ast.walk(n) if not isinstance(n, _FUNCS) else []:
+                        if isinstance(x, ast.Call) and isinstance(x.func, ast.Attribute) and x.func.attr == "clear" and isinstance(x.func.value, ast.Attribute) \
+                                and x.func.value.attr == rec and isinstance(x.func.value.value, ast.Name) and x.func.value.value.id == g.self_name:
+                            return True
+                    if isinstance(n, ast.Assign) and any(isinstance(t, ast.Attribute) and t.attr == rec for t in n.targets) and _is_empty_literal(n.value) \
+                            or (isinstance(n, ast.Assign) and any(isinstance(t, ast.Attribute) and t.attr == rec for t in n.targets)
+                                and isinstance(n.value, ast.Call) and isinstance(n.value.func, ast.Name) and n.value.func.id == "set" and not n.value.args):
+                        return True
+                    return False
+                if any(drops(n) and n is not st and cfg.dominates(n, st) for n in cfg.stmts()) or cfg.must_pass(st, lambda n: n is not st and drops(n)) is None:
+                    continue
+                leaks.append((g, c, f"{g.qualname} hands {sorted(set(handed))} (templates held in self.{'/'.join(sorted(holders))}) to a new "
+                                    f"`{norm(c.func)}` object without emptying the ownership record `self.{rec}`"))
+    return {"record": rec, "accessor": m, "holders": holders, "leaks": leaks}
+
+
+
 def r8_override_written_into_unshared_copy(ctx, rid):
     """CircuitTemplate.update_var (the write that grid_search -> adapt_circuit performs per grid row) puts the value of ONE node
     into that node's template.  Node templates are shared objects (every node built from one template, every grid copy made by
@@ -2576,6 +2748,25 @@ def r8_override_written_into_unshared_copy(ctx, rid):
         orig = an.origins(recv)
         shared = [o for o in orig if o[0] in ("P", "G", "C")]
         if shared:
+            # a copy discipline may license the write: a registry of copies made by this call, or a persistent ownership record
+            lic = _local_registry_license(ctx, rid, f, an, call, recv)
+            if lic is not None:
+                ctx.ok(rid, f0, call, lic, facts, label=label)
+                continue
+            e0 = resolve_plain(rd, recv)
+            od = ownership_discipline(ctx, rid)
+            if od is not None and isinstance(e0, ast.Call) and od["accessor"] in ctx.cg.resolve_call(f, e0)[0]:
+                facts["ownership_record"] = "self." + od["record"]
+                if od["leaks"]:
+                    g, c, text = od["leaks"][0]
+                    ctx.violation(rid, f0, call, f"`{norm(call)}` writes in place into a template that `self.{od['record']}` records as owned by this "
+                                  f"circuit, but {text}: after that both circuits reference the template and the in-place write of one changes "
+                                  f"the other", facts, label=label)
+                else:
+                    ctx.ok(rid, f0, call, f"written in place only into templates that {od['accessor'].qualname} deep-copied for this circuit "
+                           f"(record self.{od['record']}); every method that hands the held templates to a new circuit object empties the record",
+                           facts, label=label)
+                continue
             ctx.violation(rid, f0, call, f"`{norm(call)}` writes through {facts['write_path']} of an object that is "
                           f"{sorted(fmt_origin(o) for o in shared)} - {'a shallow copy of ' if all(o[0] == 'C' for o in shared) else ''}a template "
                           f"other nodes still use: the override of one node reaches its siblings (and, in a sweep, the rows that share the template)",
@@ -2611,6 +2802,19 @@ def r8_override_written_into_unshared_copy(ctx, rid):
             ctx.ok(rid, f0, call, "the template that receives the node's value shares no container on the write path with the template it was "
                                  "made from (" + "; ".join(sorted({v[1] for v in verdicts})) + ")", facts, label=label)
     ctx.require(n_sites >= 1, f"{rid}: CircuitTemplate.update_var no longer calls a method that writes into a node template (anchor vanished)")
+
+
+def resolve_plain(rd, e, depth=6):
+    """follow single plain definitions of a name (original function, engine reaching definitions)"""
+    for _ in range(depth):
+        if isinstance(e, ast.Name):
+            ds = rd.defs_reaching(e)
+            vs = [assigned_value(d, e.id) for d in ds if not isinstance(d, ast.arguments)]
+            if len(ds) == 1 and len(vs) == 1 and vs[0] is not None:
+                e = vs[0]
+                continue
+        break
+    return e
 
 
 def _made_classes(ctx, f, e, depth):
@@ -2776,16 +2980,21 @@ def r9_skip_compares_with_effective_value(ctx, rid):
             if isinstance(c, ast.Compare) and len(c.ops) == 1 and isinstance(c.ops[0], (ast.Eq, ast.NotEq)):
                 a, b = c.left, c.comparators[0]
                 for val, cur in ((a, b), (b, a)):
-                    if case.is_val(val) and isinstance(resolve(ctx, V, cur), ast.Call):
-                        cmps.append((c, resolve(ctx, V, cur)))
-        for c, cur in cmps:
-            h = ctx.repo.resolve_name(V.module, cur.func.id) if isinstance(cur.func, ast.Name) else None
-            if not isinstance(h, FunctionInfo):
-                continue
-            H = syn(ctx, h)
-            # value reads inside the helper: subscripts / .get() by a non-constant key
+                    if case.is_val(val) and not case.is_val(cur) and not isinstance(cur, ast.Constant):
+                        cmps.append((c, cur))
+        for c, cur0 in cmps:
+            cur = resolve(ctx, V, cur0)
+            h = ctx.repo.resolve_name(V.module, cur.func.id) if isinstance(cur, ast.Call) and isinstance(cur.func, ast.Name) else None
+            if isinstance(h, FunctionInfo):
+                H = syn(ctx, h)                                # the current value is computed by a helper that could not be spliced in
+                nodes, where = ordered(walk_shallow(H.node)), h.qualname
+            else:
+                H = V                                          # ... or in place (a spliced helper): look at the whole expression
+                tree = ast.Expr(value=expand(ctx, V, cur0, depth=12))
+                nodes, where = list(ast.walk(tree)), "adapt_circuit"
+            # value reads: subscripts / .get() by a non-constant key
             over, other = [], []
-            for x in ordered(walk_shallow(H.node)):
+            for x in nodes:
                 base = key = None
                 if isinstance(x, ast.Subscript) and isinstance(x.ctx, ast.Load) and not isinstance(x.slice, (ast.Constant, ast.Slice)):
                     base, key = x.value, x.slice
@@ -2793,7 +3002,7 @@ def r9_skip_compares_with_effective_value(ctx, rid):
                     base, key = x.func.value, x.args[0]
                 if base is None or not isinstance(key, ast.Name):
                     continue
-                eb = expand(ctx, H, base)
+                eb = expand(ctx, H, base) if H is not V else base
                 names = {a.attr for a in ast.walk(eb) if isinstance(a, ast.Attribute)}
                 if not names:
                     continue                                   # a plain local / parameter container: not a template attribute
@@ -2809,9 +3018,11 @@ def r9_skip_compares_with_effective_value(ctx, rid):
                 continue
             n += 1
             label = f"skip decision `{norm(c, 60)}` compares with the effective value"
+            if H is V:
+                set_parents(tree)
             if other and not over:
                 x, a = other[0]
-                ctx.violation(rid, ac, c, f"adapt_circuit skips an update when the new value equals `{norm(cur)}`, and {h.qualname} takes that value "
+                ctx.violation(rid, ac, c, f"adapt_circuit skips an update when the new value equals `{norm(cur0)}`, and {where} takes that value "
                               f"from `{norm(x)}` (the `{a}` of the operator template) without ever looking at the node's own "
                               f"`{'/'.join(sorted(attrs))}` entry, which is where update_var stores a per-node override and which wins when the model "
                               f"is compiled: a node that carries an override keeps it although the grid row (and the returned table) names the "
@@ -2840,10 +3051,10 @@ def r9_skip_compares_with_effective_value(ctx, rid):
                         guarded = True                         # try: override[var] except KeyError: default[var]
                 ok_prec = ok_prec and guarded
             if ok_prec:
-                ctx.ok(rid, ac, c, f"{h.qualname} reads the node's own override first and the operator default only where the node has none",
+                ctx.ok(rid, ac, c, f"{where} reads the node's own override first and the operator default only where the node has none",
                        label=label)
             else:
-                raise AnalysisError(f"{rid}: {h.qualname} reads both the node's override and `{norm(other[0][0])}`, but the order of "
+                raise AnalysisError(f"{rid}: {where} reads both the node's override and `{norm(other[0][0])}`, but the order of "
                                     f"precedence has a form that is not recognised")
     if n == 0:
         ctx.info(rid, ac, ac.node, "adapt_circuit does not skip updates by comparing with a current value", label="no skip decision")
